@@ -20,6 +20,7 @@ from vf.gen import defs as G
 from vf.loaders import langs as L
 from vf.rig import compiler_rig as CR
 
+REPO = os.environ.get("VF_REPO", "/repo")
 ID = "C16"
 LEVEL = "exploration"
 RULE = ("cases = generated closures (all import-graph shapes; including two files that both reserve ids) each compiled twice "
@@ -147,14 +148,14 @@ def run_core(case, res, work):
     res["nontrivial"] = True
     work.mkdir(parents=True, exist_ok=True)
     # the documented command (src/pyrtma/build_core_defs.sh), run with a scratch output directory
-    r = L.run(["/venv/bin/python", "-m", "pyrtma.compile", "-i", "core_defs/core_defs.yaml", "-o", str(work), "--py"], cwd="/repo/src/pyrtma")
+    r = L.run(["/venv/bin/python", "-m", "pyrtma.compile", "-i", "core_defs/core_defs.yaml", "-o", str(work), "--py"], cwd=REPO + "/src/pyrtma")
     regen = work / "core_defs.py"
     if r.returncode != 0 or not regen.exists():
         V.append({"mech": "core_defs_regeneration_failed", "detail": (r.stdout + r.stderr)[-400:]})
         return res
     a = L.load_py(regen, work)
     (work / "shipped").mkdir(exist_ok=True)
-    shutil.copy("/repo/src/pyrtma/core_defs.py", work / "shipped" / "core_defs.py")
+    shutil.copy(REPO + "/src/pyrtma/core_defs.py", work / "shipped" / "core_defs.py")
     b = L.load_py(work / "shipped" / "core_defs.py", work / "shipped")
     if not a.get("ok") or not b.get("ok"):
         V.append({"mech": "core_defs_does_not_load", "detail": f"{a.get('error')} / {b.get('error')}"})
@@ -174,6 +175,6 @@ def run_core(case, res, work):
             if ca[key] != cb[key]:
                 V.append({"mech": f"core_defs_stale:{key}", "detail": f"{name}.{key}: shipped {str(cb[key])[:160]} vs regenerated from YAML {str(ca[key])[:160]}"})
                 break
-    C["core_defs_bytes_identical"] = int(regen.read_bytes() == Path("/repo/src/pyrtma/core_defs.py").read_bytes())
+    C["core_defs_bytes_identical"] = int(regen.read_bytes() == Path(REPO + "/src/pyrtma/core_defs.py").read_bytes())
     res["sample"] = {"core_defs_classes": len(a["classes"]), "bytes_identical": bool(C["core_defs_bytes_identical"])}
     return res
